@@ -31,6 +31,7 @@
 (*              stream: [pos, known, osz, calc, ops, id, t115]             *)
 (*                osz   declared objectSize                                *)
 (*                calc  calculateObjectSize() of a fresh object of the type*)
+(*                      (informational since the fix of F19)               *)
 (*                ops   the codec's calls on the stream, <<kind, n>>:      *)
 (*                      "r" read(n), "s" seekg(n), "e" eof()               *)
 (*   expected   ids a complete read delivers, in order                     *)
@@ -57,7 +58,8 @@ VARIABLES cfg,
           tmp4,                 \* U: the 4 bytes of ObjectHeaderBase::read's tmp, as classes
           d,                    \* U: index of the descriptor being processed (0 = none)
           opi,                  \* U: next codec operation
-          fix,                  \* U: seek-back after the codec (ohb.objectSize - calculateObjectSize())
+          fix,                  \* U: seek-back after the codec: what was read beyond the object's declared end
+          ustart,               \* U: tellg() at the object's begin
           nread, delivered,     \* App: read() calls done, results in order (0 = nullptr)
           aret,                 \* App: result of a read() that has not returned yet (cfg.post), else -1
           freed,                \* ghost: ids the application has deleted
@@ -66,9 +68,9 @@ VARIABLES cfg,
           act                   \* ghost: thread of the last step
 
 vars == <<cfg, uf, oq, uRun, cRun, cfOpen, cfBad, ci, cur, ctmp, utmp, objCount, uncSize,
-          pc, blk, wk, tmp4, d, opi, fix, nread, delivered, aret, freed, stale, spur, act>>
+          pc, blk, wk, tmp4, d, opi, fix, ustart, nread, delivered, aret, freed, stale, spur, act>>
 View == <<cfg, uf, oq, uRun, cRun, cfOpen, cfBad, ci, cur, ctmp, utmp, objCount, uncSize,
-          pc, blk, wk, tmp4, d, opi, fix, nread, delivered, aret, freed, stale, spur>>
+          pc, blk, wk, tmp4, d, opi, fix, ustart, nread, delivered, aret, freed, stale, spur>>
 
 Threads == {"A", "U", "C"}
 StatSize == 144           \* FileStatistics::statisticsSize
@@ -84,7 +86,7 @@ Init == /\ cfg \in Configs
         /\ pc = [t \in Threads |-> IF t = "A" THEN "start" ELSE "none"]
         /\ blk = [t \in Threads |-> ""] /\ wk = {}
         /\ tmp4 = <<"x", "x", "x", "x">>
-        /\ d = 0 /\ opi = 0 /\ fix = 0
+        /\ d = 0 /\ opi = 0 /\ fix = 0 /\ ustart = 0
         /\ nread = 0 /\ delivered = <<>> /\ aret = -1
         /\ freed = {} /\ stale = FALSE
         /\ spur = 0
@@ -102,7 +104,7 @@ Sync(self, cvs, selfcv) ==
 Block(t, cv) == Sync(t, {}, cv)
 Quiet == UNCHANGED <<blk, wk, wk>>
 
-UVars == <<tmp4, d, opi, fix, utmp>>
+UVars == <<tmp4, d, opi, fix, ustart, utmp>>
 CVars == <<ci, cur, ctmp, cfBad>>
 AVars == <<nread, delivered, aret, freed>>
 Flags == <<uRun, cRun>>
@@ -201,7 +203,7 @@ U_Start == /\ Ready("U", "start") /\ Step("U") /\ Goto("U", "load")
 U_Load == /\ Ready("U", "load") /\ Step("U")
           /\ IF uRun THEN Goto("U", "scan") /\ tmp4' = <<"x", "x", "x", "x">>     \* fresh ohb, tmp = 0
                      ELSE Goto("U", "tellp") /\ UNCHANGED tmp4
-          /\ UNCHANGED <<uf, oq, Flags, cfOpen, CVars, Stats, blk, wk, d, opi, fix, utmp, AVars, stale>>
+          /\ UNCHANGED <<uf, oq, Flags, cfOpen, CVars, Stats, blk, wk, d, opi, fix, ustart, utmp, AVars, stale>>
 (* ObjectHeaderBase::read — signature scan *)
 Overlay(t4, g0, k) == [i \in 1..4 |-> IF i <= k THEN ClsAt(g0 + i - 1) ELSE t4[i]]
 U_Scan == /\ Ready("U", "scan") /\ Step("U")
@@ -209,7 +211,7 @@ U_Scan == /\ Ready("U", "scan") /\ Step("U")
                 LET t4 == Overlay(tmp4, uf.g, u2.gc) IN
                 /\ tmp4' = t4
                 /\ Goto("U", IF t4 = <<"L", "O", "B", "J">> THEN "h1" ELSE "scaneof")
-                /\ UNCHANGED <<d, opi, fix, utmp>>)
+                /\ UNCHANGED <<d, opi, fix, ustart, utmp>>)
           /\ UKeep
 ScanBack(t4) == IF <<t4[2], t4[3], t4[4]>> = <<"L", "O", "B">> THEN 3
                 ELSE IF <<t4[3], t4[4]>> = <<"L", "O">> THEN 2
@@ -242,12 +244,13 @@ U_Back16 == /\ Ready("U", "back16") /\ Step("U")
             /\ uf' = UFSeekg(uf, -16) /\ Sync("U", {"ufg"}, "")
             /\ LET i == DescAt(uf'.g) IN
                  /\ d' = i
-                 /\ IF i = 0 \/ ~Desc(i).known
-                      THEN Goto("U", "skip") /\ UNCHANGED <<opi, fix>>
-                      ELSE /\ opi' = 1
-                           /\ fix' = IF Desc(i).calc > Desc(i).osz THEN Desc(i).osz - Desc(i).calc ELSE 0
-                           /\ Goto("U", IF Desc(i).ops = <<>> THEN "good2" ELSE "op")
-            /\ UNCHANGED <<tmp4, utmp>> /\ UKeep
+                 /\ Goto("U", IF i = 0 \/ ~Desc(i).known THEN "skip" ELSE "tell1")
+            /\ UNCHANGED <<tmp4, opi, fix, ustart, utmp>> /\ UKeep
+(* objectBegin = tellg() *)
+U_Tell1 == /\ Ready("U", "tell1") /\ Step("U")
+           /\ ustart' = UFTellg(uf) /\ opi' = 1
+           /\ Goto("U", IF Desc(d).ops = <<>> THEN "good2" ELSE "op")
+           /\ UNCHANGED <<uf, blk, wk, tmp4, d, fix, utmp>> /\ UKeep
 (* unknown object type: seekg(ohb.objectSize) from the object start, return *)
 U_Skip == /\ Ready("U", "skip") /\ Step("U")
           /\ uf' = UFSeekg(uf, IF d = 0 THEN 0 ELSE Desc(d).osz) /\ Sync("U", {"ufg"}, "")
@@ -258,16 +261,22 @@ NextOp == IF opi + 1 > Len(Desc(d).ops) THEN "good2" ELSE "op"
 U_Op == /\ Ready("U", "op") /\ Step("U")
         /\ LET o == Desc(d).ops[opi] IN
            CASE o[1] = "r" -> UReadOr(o[2], LAMBDA u2 :
-                                 /\ opi' = opi + 1 /\ Goto("U", NextOp) /\ UNCHANGED <<tmp4, d, fix, utmp>>)
+                                 /\ opi' = opi + 1 /\ Goto("U", NextOp) /\ UNCHANGED <<tmp4, d, fix, ustart, utmp>>)
              [] o[1] = "s" -> /\ uf' = UFSeekg(uf, o[2]) /\ Sync("U", {"ufg"}, "")
-                              /\ opi' = opi + 1 /\ Goto("U", NextOp) /\ UNCHANGED <<tmp4, d, fix, utmp>>
+                              /\ opi' = opi + 1 /\ Goto("U", NextOp) /\ UNCHANGED <<tmp4, d, fix, ustart, utmp>>
              [] OTHER      -> /\ opi' = opi + 1 /\ Goto("U", NextOp)          \* observer call
-                              /\ UNCHANGED <<uf, blk, wk, tmp4, d, fix, utmp>>
+                              /\ UNCHANGED <<uf, blk, wk, tmp4, d, fix, ustart, utmp>>
         /\ UKeep
 U_Good2 == /\ Ready("U", "good2") /\ Step("U")
            /\ Goto("U", IF ~UFGood(uf) THEN "clrexc"          \* delete obj; throw "Read beyond end of file"
-                        ELSE IF fix # 0 THEN "fix" ELSE "push")
+                        ELSE "tell2")
            /\ UNCHANGED <<uf, blk, wk, UVars>> /\ UKeep
+(* readBeyond = tellg() - (objectBegin + ohb.objectSize); go back if positive (fix of F19) *)
+U_Tell2 == /\ Ready("U", "tell2") /\ Step("U")
+           /\ LET over == UFTellg(uf) - (ustart + Desc(d).osz) IN
+                /\ fix' = IF over > 0 THEN -over ELSE 0
+                /\ Goto("U", IF over > 0 THEN "fix" ELSE "push")
+           /\ UNCHANGED <<uf, blk, wk, tmp4, d, opi, ustart, utmp>> /\ UKeep
 U_Fix == /\ Ready("U", "fix") /\ Step("U")
          /\ uf' = UFSeekg(uf, fix) /\ Sync("U", {"ufg"}, "")
          /\ Goto("U", "push")
@@ -307,7 +316,7 @@ U_ClrBad == /\ Ready("U", "clrbad") /\ Step("U")
 (* after the loop: m_readWriteQueue.setFileSize(m_readWriteQueue.tellp()) *)
 U_Tellp == /\ Ready("U", "tellp") /\ Step("U")
            /\ utmp' = oq.p /\ Goto("U", "setend")
-           /\ UNCHANGED <<uf, oq, Flags, cfOpen, CVars, Stats, blk, wk, tmp4, d, opi, fix, AVars, stale>>
+           /\ UNCHANGED <<uf, oq, Flags, cfOpen, CVars, Stats, blk, wk, tmp4, d, opi, fix, ustart, AVars, stale>>
 U_SetEnd == /\ Ready("U", "setend") /\ Step("U")
             /\ oq' = OQSetEnd(oq, utmp) /\ Sync("U", {"oqp"}, "")
             /\ Goto("U", IF cfg.post THEN "afterEnd" ELSE "done")
@@ -316,7 +325,7 @@ U_AfterEnd == /\ Ready("U", "afterEnd") /\ Step("U") /\ Goto("U", "done")
               /\ UNCHANGED <<uf, oq, Flags, cfOpen, CVars, Stats, blk, wk, UVars, AVars, stale>>
 
 UNext == U_Start \/ U_Load \/ U_Scan \/ U_ScanEof \/ U_ScanBack \/ U_H1 \/ U_H2 \/ U_H3 \/ U_H4
-         \/ U_Good1 \/ U_Back16 \/ U_Skip \/ U_Op \/ U_Good2 \/ U_Fix \/ U_Push \/ U_AfterPush
+         \/ U_Good1 \/ U_Back16 \/ U_Tell1 \/ U_Skip \/ U_Op \/ U_Good2 \/ U_Tell2 \/ U_Fix \/ U_Push \/ U_AfterPush
          \/ U_Count \/ U_Drop \/ U_GoodChk \/ U_ClrExc \/ U_ClrBad \/ U_Tellp \/ U_SetEnd \/ U_AfterEnd
 
 (* ------------------------------------------------------------------ *)
@@ -409,6 +418,11 @@ DoneDeliveredAll == (AllDone /\ FullRead) => NonNull(delivered) = cfg.expected
 (* queue + delivered together are always a prefix: nothing is reordered or duplicated inside the library *)
 InFlight == IF aret > 0 THEN <<aret>> ELSE <<>>
 PipelineOrder == IsPrefix(NonNull(delivered) \o InFlight \o oq.q, cfg.expected)
+
+(* C10: a stream with n signatures delivers at most n objects (then nullptr): no object is delivered twice *)
+FiniteDelivery == Len(delivered) <= NObjs + 1
+(* state constraint that keeps the graph finite even when FiniteDelivery is violated *)
+BoundDelivery == Len(delivered) <= NObjs + 2 /\ Len(oq.q) <= cfg.Q + 2
 
 (* C05: the reader's running counters equal the header statistics of a complete file *)
 SumUsize == LET RECURSIVE S(_) S(i) == IF i = 0 THEN 0 ELSE ContHdr + cfg.conts[i].usize + S(i - 1) IN S(NConts)
